@@ -35,6 +35,8 @@ func runC06(c *Ctx, r *Report) {
 	// "on a proper prefix the matcher asks for more data": the verdict tables contain the proper prefixes of the
 	// small protocols' first messages (a 12-byte signature delivered as 5..11 bytes, a banner without its end, ...)
 	c14Tables(c, r, "C06.R13")
+	c06Prefixes(c, r, "C06.R20")
+	c01R2(c, r, "C06.R21")    // evaluating a matcher never changes what later matchers read: freeze and unfreeze are the only writers of the matching state, and unfreeze always puts the cursor back
 	c08R6(c, r, "C06.R19")    // the same bytes give the same verdict: a new connection's matching buffer starts empty (a recycled slice keeps the length it was returned with)
 	c01R4(c, r, "C06.R16")    // evaluating a matcher never changes what later matchers read: what prefetch appends is a copy of what it read (never a view of the pooled chunk it returns)
 	c08R3(c, r, "C06.R17")    // ... and no view of a pooled buffer is retained by the connection
